@@ -290,13 +290,6 @@ def operations_succeed_on_valid_allocations(S, op, tmpl):
     _operations_succeed(S, op, tmpl)
 
 
-@contract(P, tier="thorough", functions=[A + "refine", A + "uniform_refinement_depth", A + "griddify", A + "__init__"], budget_s=3000, exact_feas_ms=0,
-          shards=16, shard_depth=5, params=[dict(op="refine_uniform_griddify", tmpl=t) for t in ("two_side_by_side_T", "two_stacked_T")],
-          scope="bounded: composition refine -> uniform -> griddify on 2-cell lattice allocations through the real constructors")
-def composed_operations_succeed_on_valid_allocations(S, op, tmpl):
-    _operations_succeed(S, op, tmpl)
-
-
 def _operations_succeed(S, op, tmpl):
     """'the operation succeeds on every valid allocation' and 'every module keeps its area and centre of mass' observed
     through the public API (area(m), center(m)) with the real constructor re-checking the result"""
@@ -321,6 +314,10 @@ def _operations_succeed(S, op, tmpl):
             return a.refine(t, 1)
         if op == "griddify":
             return a.griddify()
+        if op == "refine_uniform":
+            return a.refine(t, 1).uniform_refinement_depth()
+        if op == "refine_griddify":
+            return a.refine(t, 1).griddify()
         return a.refine(t, 1).uniform_refinement_depth().griddify()
     out = S.call(run)
     S.ensure("valid.operation_succeeds", out.ok)
